@@ -457,7 +457,21 @@ func runC03(r *Report, rng *rand.Rand, thorough bool) {
 					if len(base) > 0 {
 						baseURL = "/" + strings.Join(base, "/")
 					}
-					scenarios = append(scenarios, map[string]any{"id": id, "pkg": name, "opts": map[string]any{"base_url": baseURL, "short_circuit": -1, "strict_short_circuit": -1},
+					// the generated entry point that mounts the server: with an options value, or (net/http flavours) on a
+					// router the caller made and serves itself, or the plain one-argument form when there is no base URL
+					entries := []string{""}
+					netHTTP := fw == "chi" || fw == "gorilla" || fw == "stdhttp"
+					switch {
+					case len(base) == 0 && netHTTP:
+						entries = []string{"", "plain", "from_mux"}
+					case len(base) == 0:
+						entries = []string{"", "plain"}
+					case netHTTP:
+						entries = []string{"", "from_mux_base"}
+					}
+					entry := entries[rng.Intn(len(entries))]
+					r.Dist["entry="+fw+"/"+entry]++
+					scenarios = append(scenarios, map[string]any{"id": id, "pkg": name, "opts": map[string]any{"base_url": baseURL, "short_circuit": -1, "strict_short_circuit": -1, "entry": entry},
 						"req": map[string]any{"method": strings.ToUpper(method), "target": "/" + strings.Join(full, "/")}})
 					metas[id] = meta{si, fw, base, method, full, kind}
 				}
@@ -690,7 +704,7 @@ func runC03(r *Report, rng *rand.Rand, thorough bool) {
 		}
 	}
 	dcases.WriteTo(r)
-	r.Rule = "function level: random path templates through SwaggerUriTo{Echo,Chi,Gin,Gorilla,StdHttp,Fiber,Iris}Uri, OrderedParamsFromUri and SortParamsByPath (permuted, missing, extra and renamed declarations) vs the model; generated routers: random route sets (shared prefixes, static/templated siblings, 0-4 variables, path-level / operation-level / overridden parameter declarations in shuffled order) x 7 frameworks x with/without base URL x strict/non-strict, requests = matching paths with random values, extra/missing segment, other method, value equal to a sibling literal, missing base prefix; one fixed set of paths differing in a final slash plus the root path (/, /pets, /pets/, /pets/{id}); non-trivial = a near-miss or sibling probe"
+	r.Rule = "function level: random path templates through SwaggerUriTo{Echo,Chi,Gin,Gorilla,StdHttp,Fiber,Iris}Uri, OrderedParamsFromUri and SortParamsByPath (permuted, missing, extra and renamed declarations) vs the model; generated routers: random route sets (shared prefixes, static/templated siblings, 0-4 variables, path-level / operation-level / overridden parameter declarations in shuffled order) x 7 frameworks x with/without base URL x strict/non-strict x the generated entry points (options value; plain form; the caller's own router, with and without base URL, served itself), requests = matching paths with random values, extra/missing segment, other method, value equal to a sibling literal, missing base prefix; one fixed set of paths differing in a final slash plus the root path (/, /pets, /pets/, /pets/{id}); non-trivial = a near-miss or sibling probe"
 }
 
 func handlerNames(hs []LabEvent) []string {
